@@ -73,19 +73,21 @@ def gen_explore(ctx):
     """exhaustive interleavings: (conf, nw, macro, cap)"""
     out = []
     chunks = [None, 1, 2]
+    # caps: on the current tree every scope below except (3 workers, n >= 4) is enumerated completely
+    # (largest: 1962 / 2556 executions); the caps only bound the work when a changed Scheduler has more interleavings
     if ctx.thorough:
-        step_scopes = [(2, range(0, 4)), (3, range(0, 3))]
-        macro_scopes = [(2, range(0, 6), 10 ** 6), (3, range(0, 4), 10 ** 6), (3, range(4, 6), 1500)]
+        step_scopes = [(2, range(0, 4), 2500), (3, range(0, 3), 2500)]
+        macro_scopes = [(2, range(0, 6), 3000), (3, range(0, 4), 3000), (3, range(4, 6), 1200)]
     else:
-        step_scopes = [(2, range(0, 3)), (3, range(0, 2))]
-        macro_scopes = [(2, range(0, 4), 10 ** 6), (3, range(0, 3), 10 ** 6)]
-    for macro, scopes in ((False, [(a, b, 10 ** 6) for a, b in step_scopes]), (True, macro_scopes)):
+        step_scopes = [(2, range(0, 3), 400), (3, range(0, 2), 400)]
+        macro_scopes = [(2, range(0, 4), 400), (3, range(0, 3), 400)]
+    for macro, scopes in ((False, step_scopes), (True, macro_scopes)):
         for nw, ns, cap in scopes:
             for n in ns:
-                seen = set()
                 for kind in KINDS:
                     for ch in chunks:
-                        out.append({"conf": {"n": n, "nprocs": nw, "chunk": ch, "kind": kind}, "nw": nw, "macro": macro, "cap": cap})
+                        out.append({"conf": {"n": n, "nprocs": nw, "chunk": ch, "kind": kind}, "nw": nw, "macro": macro, "cap": cap,
+                                    "sampled": nw == 3 and n >= 4})
     return out
 
 
@@ -127,6 +129,21 @@ def lock_discipline(events):
             if holder == w:
                 return "turn %d: worker %d received a slice while still holding the lock" % (i, w)
     return None
+
+
+class Sorted:
+    """collects failures, reports the shortest execution first"""
+
+    def __init__(self, ctx):
+        self.ctx, self.l = ctx, []
+
+    def add_failure(self, key, what, replay):
+        self.l.append((len(replay.get("turns", [])), len(self.l), key, what, replay))
+
+    def flush(self):
+        for _, _, key, what, replay in sorted(self.l, key=lambda t: t[:2]):
+            self.ctx.add_failure(key, what, replay)
+        self.l = []
 
 
 def judge(ctx, conf, nw, res, cls):
@@ -179,26 +196,24 @@ def coq_macro(conf, nw, res):
 
 
 def run_driver(ctx, traces, explores):
-    """fan the real executions out over a few driver processes"""
-    jobs = []
+    """fan the real executions out over a few driver processes (interleaved round-robin to balance the load)"""
     k = DRIVER_PROCS
-    for i in range(k):
-        part = traces[i::k]
-        if part:
-            jobs.append(("t", i, {"traces": part}))
-    for j, e in enumerate(explores):
-        jobs.append(("e", j, {"explore": [e]}))
     tres = [None] * len(traces)
     eres = [None] * len(explores)
+    jobs = []
+    for i in range(k):
+        ti = list(range(i, len(traces), k))
+        ei = list(range(i, len(explores), k))
+        if ti or ei:
+            jobs.append((ti, ei, {"traces": [traces[j] for j in ti], "explore": [explores[j] for j in ei]}))
     with ThreadPoolExecutor(max_workers=k) as ex:
-        futs = [(kind, idx, ex.submit(ctx.impl, "c15", payload, 1500)) for kind, idx, payload in jobs]
-        for kind, idx, f in futs:
+        futs = [(ti, ei, ex.submit(ctx.impl, "c15", payload, 3000)) for ti, ei, payload in jobs]
+        for ti, ei, f in futs:
             o = f.result()
-            if kind == "t":
-                for m, r in enumerate(o["traces"]):
-                    tres[idx + m * k] = r
-            else:
-                eres[idx] = o["explore"][0]
+            for j, r in zip(ti, o["traces"]):
+                tres[j] = r
+            for j, r in zip(ei, o["explore"]):
+                eres[j] = r
     return tres, eres
 
 
@@ -226,29 +241,35 @@ def run(ctx):
                 "at critical-section granularity, malformed stream (negative n, nprocs 0, unknown kind); each execution is "
                 "replayed in the Coq model. Non-trivial = at least two slices handed out and at least two workers received one "
                 "(or, single worker, at least two slices); distinct = distinct (configuration, executed schedule)")
+    import time
+    t0 = time.time()
     traces = gen_traces(ctx)
     explores = gen_explore(ctx)
     tres, eres = run_driver(ctx, traces, explores)
+    t1 = time.time()
 
     items = []   # (conf, nw, res, cls)
     for t, r in zip(traces, tres):
         items.append((t["conf"], t["nw"], r, t["cls"]))
     complete = True
     for e, r in zip(explores, eres):
-        complete = complete and r["complete"]
         cls = "exhaustive_macro" if e["macro"] else "exhaustive_step"
-        if not r["complete"]:
+        if e["sampled"]:
+            cls = "depth_first_sample_macro"
+        elif not r["complete"]:
+            complete = False
             ctx.count("exhaustive_scope_capped")
         for run_ in r["runs"]:
             items.append((e["conf"], e["nw"], run_, cls))
     ctx.exhaustive = bool(explores) and complete
     if not complete:
-        ctx.notes.append("some exhaustive scopes were capped (3 workers, n >= 4); the others are complete")
+        ctx.notes.append("some exhaustive scopes hit their cap: the Scheduler under test has more interleavings than the modelled one")
 
     strict_cases, macro_cases, disc_bad = [], [], []
+    fails = Sorted(ctx)
     for conf, nw, res, cls in items:
         ctx.count(cls)
-        ok = judge(ctx, conf, nw, res, cls)
+        ok = judge(fails, conf, nw, res, cls)
         if "error" in res:
             ctx.case(("err", repr(conf)), nontrivial=False)
             ctx.count("raises_" + res["error"].split(":")[0])
@@ -267,6 +288,7 @@ def run(ctx):
         strict_cases.append((coq_strict(conf, nw, res), len(res["turns"])))
         macro_cases.append((coq_macro(conf, nw, res), len(res["turns"])))
         ctx.traces += 1
+    fails.flush()
     if disc_bad:
         conf, nw, d = disc_bad[0]
         ctx.broken.append(("correspondence:lock_discipline", "%d of %d real executions break the lock discipline the model "
@@ -287,22 +309,31 @@ def run(ctx):
                 for i, f in enumerate(files)]
     texts = shards(macro_cases, "c15_macro", "chk_macro") + shards(strict_cases, "c15_strict", "chk_strict")
     res = ctx.coq_eval_many([(n_, t) for n_, t, _ in texts], timeout=1200)
-    strict_bad = strict_total = 0
+    strict_bad = strict_total = macro_bad = macro_total = 0
+    macro_eg = None
+    evalfail = {}
     for name, _, lines in texts:
         out, ok = res[name]
         what = "critical_section" if name.startswith("c15_macro") else "action_stream"
         if not ok:
-            ctx.broken.append(("correspondence:" + what, "model evaluation failed: " + out[-300:]))
+            evalfail.setdefault(what, out[-300:])
             continue
         bad = ints(out)
         if what == "critical_section":
-            if bad:
-                ctx.broken.append(("correspondence:critical_section", "model and implementation differ (yields / result writes / "
-                                   "final counters / self._chunk / completion) on %d of %d executions, e.g. %s" % (
-                                       len(bad), len(lines), lines[bad[0]][:300])))
+            macro_total += len(lines)
+            macro_bad += len(bad)
+            if bad and macro_eg is None:
+                macro_eg = min((lines[i] for i in bad), key=len)
         else:
             strict_total += len(lines)
             strict_bad += len(bad)
+    for what, detail in evalfail.items():
+        ctx.broken.append(("correspondence:" + what, "model evaluation failed: " + detail))
+    if macro_bad:
+        ctx.broken.append(("correspondence:critical_section", "model and implementation differ (yields / result writes / final "
+                           "counters / self._chunk / completion) on %d of %d executions, e.g. %s" % (macro_bad, macro_total, macro_eg[:400])))
+    t2 = time.time()
+    print("C15 timing: proofs+build %.1fs, real executions %.1fs, model replay %.1fs" % (t0 - ctx.t0, t1 - t0, t2 - t1))
     ctx.notes.append("action-stream agreement (every turn: same atomic action with the same value in model and implementation): "
                      "%d of %d executions" % (strict_total - strict_bad, strict_total))
     if strict_bad:
@@ -335,6 +366,6 @@ def replay(ctx, data):
     conf, nw = case["conf"], case["nw"]
     o = ctx.impl("c15", {"traces": [{"conf": conf, "nw": nw, "prefix": case["turns"]}]})
     res = o["traces"][0]
-    n0 = len(ctx.failures)
-    judge(ctx, conf, nw, res, "replay")
-    return len(ctx.failures) > n0
+    fails = Sorted(ctx)
+    judge(fails, conf, nw, res, "replay")
+    return bool(fails.l)
